@@ -86,7 +86,7 @@ def upwind(ctx, n=3, stored="same"):
 
 def nuc_class(ctx, n=3):
     """nuclei enter only the class [b_k, b_k+1) containing the nucleation radius (R = b_k included);
-    for radii outside the grid exactly one class receives them (which one is not specified)"""
+    for radii outside the grid the nearest class receives them (the smallest class below the grid, the largest above it)"""
     pbm, b0, w = mk_pbm(ctx, n)
     psd, g, nuc, rn = inputs(ctx, n)
     dt = ctx.real("dt", (0.05, 1.0)); ctx.assume(dt > 0)
@@ -100,6 +100,10 @@ def nuc_class(ctx, n=3):
     for k in range(n):
         ink = ctx.all([bnds[k] <= rn, rn < bnds[k + 1]])
         ctx.prove("nuclei_in_containing_class", ctx.implies(ink, ctx.all([ctx.eq(extra[i], nuc if i == k else 0.0 * nuc) for i in range(n)])))
+    ctx.prove("nuclei_below_the_grid_enter_the_smallest_class",
+              ctx.implies(rn < bnds[0], ctx.all([ctx.eq(extra[i], nuc if i == 0 else 0.0 * nuc) for i in range(n)])))
+    ctx.prove("nuclei_above_the_grid_enter_the_largest_class",
+              ctx.implies(rn >= bnds[n], ctx.all([ctx.eq(extra[i], nuc if i == n - 1 else 0.0 * nuc) for i in range(n)])))
     # exactly one class in every case
     ctx.prove("nuclei_in_exactly_one_class",
               ctx.any([ctx.all([ctx.eq(extra[i], nuc if i == k else 0.0 * nuc) for i in range(n)]) for k in range(n)]))
@@ -107,6 +111,10 @@ def nuc_class(ctx, n=3):
     extra2 = [d2[i] - (pbm._netFlux[i] - pbm._netFlux[i + 1]) for i in range(n)]
     for k in range(n):
         ink = ctx.all([bnds[k] <= rn, rn < bnds[k + 1]])
+        if k == 0:
+            ink = ctx.any([ink, rn < bnds[0]])
+        if k == n - 1:
+            ink = ctx.any([ink, rn >= bnds[n]])
         ctx.prove("nuclei_in_containing_class_after_correction",
                   ctx.implies(ink, ctx.all([ctx.eq(extra2[i], nuc if i == k else 0.0 * nuc) for i in range(n)])))
 
